@@ -34,13 +34,16 @@ type vc02Machine struct {
 	hist       []string
 	classes    map[string]bool
 	bigImports int
+	bigN       int // prefilled containers (keys 100..100+bigN-1) in multi-page histories, else 0
 }
 
 func (s *vc02Machine) has(v uint64) bool { return vHas(s.m, v) }
 
 type vc02FailWriter struct{}
 
-func (vc02FailWriter) Write(p []byte) (int, error) { return 0, fmt.Errorf("verif: injected op-log write failure") }
+func (vc02FailWriter) Write(p []byte) (int, error) {
+	return 0, fmt.Errorf("verif: injected op-log write failure")
+}
 
 func (s *vc02Machine) modelAdd(v uint64) bool {
 	i := sort.Search(len(s.m), func(i int) bool { return s.m[i] >= v })
@@ -107,6 +110,11 @@ var vc02Lows = []uint16{0, 1, 2, 3, 5, 63, 64, 65, 4095, 4096, 65534, 65535}
 
 func (s *vc02Machine) genVal(t *rapid.T, label string) uint64 {
 	kind := rapid.IntRange(0, 9).Draw(t, label+".kind")
+	if s.bigN > 0 && rapid.IntRange(0, 2).Draw(t, label+".anyKey") == 0 {
+		// multi-page histories: any of the prefilled keys (every page, page boundaries included), low bits near the prefilled value
+		k := uint64(100 + rapid.IntRange(0, s.bigN-1).Draw(t, label+".bigKey"))
+		return k<<16 | uint64(rapid.IntRange(0, 8).Draw(t, label+".bigLow"))
+	}
 	switch {
 	case kind <= 2 && len(s.m) > 0:
 		v := s.m[rapid.IntRange(0, len(s.m)-1).Draw(t, label+".idx")]
@@ -270,6 +278,7 @@ func vc02Machinery(t *rapid.T) *vc02Machine {
 			s.modelAdd(v)
 		}
 		s.classes["bigTree"] = true
+		s.bigN = nc
 		s.log("prefill %d containers (keys 100..%d)", nc, 100+nc-1)
 	}
 	return s
@@ -435,6 +444,81 @@ func (s *vc02Machine) actions(t *rapid.T) map[string]func(*rapid.T) {
 				}
 			}
 			s.touch(vals[0], vals[len(vals)-1])
+		},
+		"ImportSweep": func(t *rapid.T) {
+			// multi-page histories: one import (set or clear) that touches EVERY container of a key range, so that
+			// Containers.Update is exercised for the first/last key of every B-tree page and for the keys in between
+			if s.bigN == 0 {
+				t.Skip("no prefilled containers")
+			}
+			lo, n := 0, s.bigN
+			if rapid.Bool().Draw(t, "sweep.part") {
+				lo = rapid.IntRange(0, s.bigN-1).Draw(t, "sweep.lo")
+				n = rapid.IntRange(1, s.bigN-lo).Draw(t, "sweep.n")
+			}
+			step := rapid.SampledFrom([]int{1, 1, 1, 2, 3}).Draw(t, "sweep.step")
+			low := rapid.IntRange(-1, 8).Draw(t, "sweep.low") // -1: the value each container was prefilled with
+			clear := rapid.Bool().Draw(t, "sweep.clear")
+			official := rapid.Bool().Draw(t, "sweep.official")
+			rowSize := rapid.SampledFrom([]uint64{0, 16}).Draw(t, "sweep.rowSize")
+			var ms []uint64
+			var conts []vr2OffCont
+			for i := lo; i < lo+n; i += step {
+				l := uint16(i % 7)
+				if low >= 0 {
+					l = uint16(low)
+				}
+				ms = append(ms, uint64(100+i)<<16|uint64(l))
+				conts = append(conts, vr2OffCont{Key: uint16(100 + i), Vals: []uint16{l}})
+			}
+			s.log("ImportRoaringBits(sweep keys %d..%d step %d low %d, official=%v, clear=%v, rowSize=%d)", 100+lo, 100+lo+n-1, step, low, official, clear, rowSize)
+			var changedVals []uint64
+			sign := 1
+			if clear {
+				changedVals = vIntersect(s.m, ms)
+				s.m = vDifference(s.m, ms)
+				sign = -1
+			} else {
+				changedVals = vDifference(ms, s.m)
+				s.m = vUnion(s.m, ms)
+				for _, v := range ms {
+					s.everKey[v>>16] = true
+				}
+			}
+			wantRows := vr2RowDeltas(changedVals, rowSize, sign)
+			for i, b := range s.bms {
+				var data []byte
+				if official {
+					data = vr2OffEncode(conts)
+				} else {
+					var buf bytes.Buffer
+					if _, err := NewBitmap(ms...).WriteTo(&buf); err != nil {
+						t.Fatalf("WriteTo: %v", err)
+					}
+					data = buf.Bytes()
+				}
+				changed, rowSet, err := b.ImportRoaringBits(data, clear, false, rowSize)
+				if err != nil {
+					t.Fatalf("%s bitmap: sweep ImportRoaringBits: %v\n%s", s.kinds[i], err, s.describe())
+				}
+				if changed != len(changedVals) {
+					t.Fatalf("%s bitmap: sweep import reports changed=%d want %d\n%s", s.kinds[i], changed, len(changedVals), s.describe())
+				}
+				if d := vr2RowSetDiff(rowSet, wantRows); d != "" {
+					t.Fatalf("%s bitmap: sweep import rowSet: %s\n%s", s.kinds[i], d, s.describe())
+				}
+				for j := range data {
+					data[j] = 0xAA
+				}
+			}
+			for _, v := range ms {
+				s.replaced(v >> 16)
+			}
+			s.touch(ms[0], ms[len(ms)-1])
+			s.classes["importSweep"] = true
+			if clear {
+				s.classes["importSweep:clear"] = true
+			}
 		},
 		"Import": func(t *rapid.T) {
 			format := rapid.SampledFrom([]string{"pilosa", "pilosaUnopt", "official"}).Draw(t, "imp.format")
